@@ -1,6 +1,7 @@
 (* C05 property theorems only. *)
 From Coq Require Import List NArith Bool Arith.
 From Verif Require Import C11.Model_C11 C11.Proofs_C11 C05.Model_C05 C05.Proofs_C05.
+From Verif Require C11.ModelP_C11 C11.ProofsP2_C11.
 Import ListNotations.
 
 (* A complete, uninterrupted unit phase (any number of workers >= 1, any interleaving, any behaviour of
@@ -61,3 +62,22 @@ Theorem C05_complete_example :
   trace s = [ScStart 0; ScStart 1; ScFinish 0 FAILURE; NonFatal 1; ScFinish 1 ERROR; ScStart 2; NonFatal 2; ScFinish 2 ERROR].
 Proof. exact complete_example. Qed.
 Print Assumptions C05_complete_example.
+
+(* ---- the stateful phase (ModelP_C11: execute_state_machine_loop + the consumer's status fold) ----
+   When the state-machine thread has ended and some scenario was reported FAILURE / ERROR (or worse), the phase status is
+   not SUCCESS and not SKIP: FAILURE, ERROR - which set a non-zero exit code - or INTERRUPTED.  For every behaviour in which
+   an exception raised by a step is what Hypothesis' run() ends with, every failure limit, every stop point. *)
+Theorem C05_stateful_failure_reaches_phase_partial : forall c stop0 limit0 counter0 behs ls,
+  forallb ModelP_C11.consistent_beh behs = true ->
+  let s := ModelP_C11.prun c ls (ModelP_C11.pinit stop0 limit0 counter0 behs) in
+  ModelP_C11.p_pc s = ModelP_C11.PDone ->
+  1 <= ModelP_C11.worst_scenario (ModelP_C11.pscript s) ->
+  ModelP_C11.phase_status (ModelP_C11.pscript s) <> SUCCESS /\ ModelP_C11.phase_status (ModelP_C11.pscript s) <> SKIP.
+Proof.
+  intros c stop0 limit0 counter0 behs ls Hc s Hd Hw.
+  pose proof (ProofsP2_C11.producer_status_covers c stop0 limit0 counter0 behs ls Hc Hd) as H. fold s in H.
+  unfold ModelP_C11.phase_rank in H.
+  destruct (ModelP_C11.phase_status (ModelP_C11.pscript s)); cbn in H; split; try discriminate;
+    exfalso; apply (Nat.lt_irrefl 0); apply Nat.lt_le_trans with (m := ModelP_C11.worst_scenario (ModelP_C11.pscript s)); auto.
+Qed.
+Print Assumptions C05_stateful_failure_reaches_phase_partial.
